@@ -1236,6 +1236,7 @@ namespace
             return {};
         }
         auto val = params[1];
+        auto oldsize = arr->size();
         if (static_cast<int>(arr->size()) <= index)
         {
             arr->resize(index + 1);
@@ -1245,6 +1246,7 @@ namespace
         if (!arr->recursion_test())
         {
             (*arr)[index] = oldval;
+            arr->resize(oldsize);
             runtime.__logmsg(err::ArrayRecursion(runtime.context_active().current_frame().diag_info_from_position()));
             return {};
         }
